@@ -5,6 +5,7 @@ import (
 	"encoding/json"
 	"errors"
 	"fmt"
+	"runtime"
 	"strings"
 	"sync"
 	"sync/atomic"
@@ -32,6 +33,10 @@ type CConfig struct {
 	// OnlyHandler: "notify" - the client has OnNotify and no OnCallback;
 	// "callback" - the other way round. What it has no handler for is dropped.
 	OnlyHandler string `json:"only_handler,omitempty"`
+	// LogYield: the client has a Logger that gives up the processor this many
+	// times per line (the client logs under its mutex; whatever it logs outside
+	// it becomes a wider window).
+	LogYield int `json:"log_yield,omitempty"`
 	// HookCalls: the OnCancel hook tells the peer (a Notify with a fresh context,
 	// the use its documentation names) and the OnStop hook asks IsStopped.
 	HookCalls bool `json:"hook_calls,omitempty"`
@@ -632,6 +637,13 @@ func RunClient(t *testing.T, sc CScenario) (h *CHistory) {
 				}
 				w.log(CEvent{Kind: "onstop", Class: class, Err: err.Error()})
 			},
+		}
+		if n := sc.Cfg.LogYield; n > 0 {
+			opts.Logger = func(string) {
+				for i := 0; i < n; i++ {
+					runtime.Gosched()
+				}
+			}
 		}
 		if sc.Cfg.NoHandlers {
 			opts.OnNotify, opts.OnCallback = nil, nil
